@@ -291,6 +291,87 @@ def scratch_cleared(ctx, f, rep, rule):
     rep.floor(rule, n, 2, 'uses of updates_buf')
 
 
+def payload_staged_whole(ctx, f, rep, rule):
+    """What apply_many drains is the decoded member list itself: between the clear() and the take of Foca.updates_buf the
+    buffer is touched by nothing but `push`, and every member the codec decoded successfully is pushed - that very value,
+    unconditionally - before the next one is decoded. (A staging step that merges, overwrites, reorders or drops entries
+    makes the view depend on the order inside one datagram: S176.)"""
+    hd = f.fn('Foca::handle_data')
+    UB = ('ref', q.self_field('updates_buf'), True)
+    n_dec = n_mut = 0
+    bad_mut = set()
+    for p in ctx.paths(f, hd, 'none'):
+        evs = p.events
+        decs = [i for i, e in enumerate(evs) if e['kind'] == 'call' and e['decl'].endswith('Codec::decode_member')]
+        for i, e in enumerate(evs):
+            if e['kind'] == 'call' and any(a == UB for a in e['args']):
+                n_mut += 1
+                nm = e['res'] or e['decl']
+                if nm not in ('alloc::vec::Vec::push', 'alloc::vec::Vec::clear', 'core::mem::take', 'alloc::vec::Vec::drain') and \
+                        not nm.startswith('Foca::'):
+                    if nm not in bad_mut:
+                        bad_mut.add(nm)
+                        rep.violation(rule, hd.nname, 'updates_buf-mutator:' + nm.split('::')[-1], 'the decoded member list is '
+                                      'modified by something other than push (%s): what is applied is no longer what the '
+                                      'datagram carried, entry by entry' % nm, site=e['span'])
+        oks = q.try_ok_of(p, len(evs))
+        for k, i in enumerate(decs):
+            e = evs[i]
+            if oks.get(e['id']) != 'ok':
+                continue
+            n_dec += 1
+            end = decs[k + 1] if k + 1 < len(decs) else len(evs)
+            pays = q.ok_payloads(p, e['id'])
+            pushes = [x for x in evs[i:end] if x['kind'] == 'call' and x['res'] == 'alloc::vec::Vec::push' and x['args'][0] == UB]
+            good = len(pushes) == 1 and pushes[0]['args'][1] in pays
+            if not good:
+                rep.violation(rule, hd.nname, 'decoded-member-not-pushed', 'a successfully decoded member is not pushed as it is, '
+                              'exactly once, onto the list handed to apply_many (%d push(es) before the next decode)'
+                              % len(pushes), site=e['span'])
+                return
+    rep.check(not bad_mut, rule, hd.nname, 'the decoded member list is only ever pushed to, cleared, taken and drained',
+              construct='updates_buf-mutators')
+    rep.ok(rule, hd.nname, 'every successfully decoded member is pushed unchanged, exactly once, before the next decode')
+    rep.floor(rule, n_dec, 2, 'successful decode_member events on handle_data paths')
+    rep.floor(rule, n_mut, 4, 'events lending updates_buf mutably')
+
+
+def routing_reads_current_identity(ctx, f, rep, rule):
+    """apply_many classifies every update against the identity the instance has *at that moment*: a self-update earlier in
+    the same batch may renew the identity (handle_self_update -> attempt_rejoin -> change_identity), so every read of
+    self.identity in the dispatch must be made after the last call that was lent `&mut self` - never a snapshot taken
+    before the loop (S170)."""
+    b = f.fn('Foca::apply_many')
+    ident = q.self_field('identity')
+    n = 0
+    stale = None
+    for p in ctx.paths(f, b, 'none'):
+        last_mut = 0
+        for e in p.events:
+            vals = []
+            if e['kind'] == 'cond':
+                vals = [e['expr']]
+            elif e['kind'] == 'call':
+                vals = list(e.get('argvals') or e['args'])
+            for v in vals:
+                for x in q.walk(v):
+                    if isinstance(x, tuple) and len(x) >= 3 and x[0] == 'load' and isinstance(x[1], tuple) and \
+                            (x[1] == ident or q.is_prefix(ident, x[1])) and isinstance(x[2], int):
+                        n += 1
+                        if x[2] < last_mut and stale is None:
+                            stale = (e, x[2], last_mut)
+            if e['kind'] == 'call' and any(a == ('ref', q.SELF, True) for a in e['args']):
+                last_mut = e['id']
+    if stale is not None:
+        e, ep, lm = stale
+        rep.violation(rule, b.nname, 'stale-identity-read', 'an update of a batch is classified against a value of self.identity '
+                      'read before an earlier update of the same batch was handled (which may have renewed the identity): read '
+                      'at epoch %d, last `&mut self` call #%d' % (ep, lm), site=e.get('span'))
+    else:
+        rep.ok(rule, b.nname, 'every read of self.identity in the dispatch loop is made after the last call lent &mut self')
+    rep.floor(rule, n, 4, 'reads of self.identity on apply_many paths')
+
+
 CTOR_OF = {'members': 'member::Members::new', 'updates': 'broadcast::Broadcasts::new',
            'custom_broadcasts': 'broadcast::Broadcasts::new', 'probe': 'probe::Probe::new'}
 
